@@ -687,7 +687,7 @@ func (h *Handler) ServeHTTP(w http.ResponseWriter, r *http.Request) {
 	} else if strings.HasPrefix(r.URL.Path, "/debug/vars") {
 		h.serveExpvar(w, r)
 	} else if strings.HasPrefix(r.URL.Path, "/debug/query") {
-		h.serveDebugQuery(w, r)
+		authenticate(h.serveAuthorizedDebugQuery, h, h.Config.AuthEnabled).ServeHTTP(w, r)
 	} else {
 		h.mux.ServeHTTP(w, r)
 	}
